@@ -71,6 +71,10 @@ def __getattr__(name):
                 kwargs["s"] = s
             if axes is not None:
                 kwargs["axes"] = axes
+        # Execution hints of scipy.fft that have no meaning for a lazy result.
+        kwargs = {
+            k: v for k, v in kwargs.items() if k not in ("overwrite_x", "workers", "plan")
+        }
         wrapped_func = da.fft.fft_wrap(_fft_func)
         return wrapped_func(x, *args, **kwargs)
 
